@@ -313,7 +313,7 @@ func (r *Report) selfTest(hs HarnessSpec, ex *Explorer, hr *HarnessReport, vd, r
 		}
 		want, _ := json.Marshal(st.Obs)
 		have, _ := json.Marshal(got)
-		r.Inconclusive = append(r.Inconclusive, fmt.Sprintf("%s: SELFTEST-MISMATCH (engine and native build disagree on a completed path; native outcome %s): %s engine=%s native=%s", hs.Name, outcome, path, trunc(string(want), 300), trunc(string(have), 300)))
+		r.Inconclusive = append(r.Inconclusive, fmt.Sprintf("%s: SELFTEST-MISMATCH (engine and native build disagree on a completed path; native outcome %s): %s engine=%s native=%s", hs.Name, outcome, path, trunc(string(want), 6000), trunc(string(have), 6000)))
 		exit = 2
 	}
 	return exit
@@ -354,6 +354,29 @@ func nativeReplay(vd, repo string, hs HarnessSpec, vecPath string) (string, stri
 			continue
 		}
 		repl[filepath.Join(repo, hs.Pkg, n)] = filepath.Join(hdir, n)
+	}
+	// the package's own test files are replaced by empty stubs: their init functions (e.g. diam/sm's
+	// common_test.go loads extra dictionaries into dict.Default) must not leak into the replay
+	if tests, err := filepath.Glob(filepath.Join(repo, hs.Pkg, "*_test.go")); err == nil {
+		for i, tf := range tests {
+			if strings.HasPrefix(filepath.Base(tf), "zz_") {
+				continue
+			}
+			src, err := os.ReadFile(tf)
+			if err != nil {
+				continue
+			}
+			pkgClause := "package " + pkgName
+			for _, line := range strings.Split(string(src), "\n") {
+				if strings.HasPrefix(line, "package ") {
+					pkgClause = strings.TrimSpace(line)
+					break
+				}
+			}
+			stub := filepath.Join(tmp, fmt.Sprintf("stub%d_test.go", i))
+			os.WriteFile(stub, []byte(pkgClause+"\n"), 0o644)
+			repl[tf] = stub
+		}
 	}
 	// generated overlay files of other packages (e.g. the dict package's embedded XML accessor)
 	filepath.Walk(filepath.Join(vd, "harness"), func(p string, info os.FileInfo, err error) error {
